@@ -368,6 +368,24 @@ def run_gifti(case):
         if [norm(list(map(int, t_))) for t_ in T2.tolist()] != [norm(t_) for t_ in Tw]:
             v.append({"kind": "triangles-differ", "detail":
                       f"{ctx}: {T2[:2].tolist()} expected {Tw[:2]}"})
+        # the same command once more on the same dataset (accepted or refused): the mesh
+        # written by the first run is still there, byte for byte
+        if not v and case["seed"] % 2 == 0:
+            try:
+                rc2 = m2p.main(argv)
+            except BaseException as exc:  # noqa: BLE001
+                rc2 = type(exc).__name__
+            obs["second_runs"] = 1
+            try:
+                again = accessor_mod.get_accessor_for_url(dest).fetch_file(
+                    want_dir + "/" + want_name)
+            except Exception as exc:  # noqa: BLE001
+                again = type(exc).__name__
+            if again != data:
+                v.append({"kind": "mesh-lost-or-changed-by-a-second-run", "detail":
+                          f"{ctx}: second run ended with {rc2!r}; the fragment is now "
+                          f"{again if isinstance(again, str) else str(len(again)) + ' bytes'}"
+                          f" (was {len(data)} bytes)"})
     finally:
         shutil.rmtree(top, ignore_errors=True)
     return {"violations": v[:3], "obs": obs, "sigs": [f"gifti|{case['seed']}"],
@@ -526,6 +544,27 @@ def run_links(case):
                     v.append({"kind": "link-file-content-differs",
                               "detail": f"{ctx}: {name}: {found[name][:80]!r} expected "
                               f"fragments {frags}"})
+        if not v and case["seed"] % 2 == 0:
+            # the same table linked once more (accepted or refused): the files still list
+            # exactly the fragments given
+            try:
+                rc2 = lmf.main(argv)
+            except BaseException as exc:  # noqa: BLE001
+                rc2 = type(exc).__name__
+            obs["second_runs"] = 1
+            found2 = {}
+            for name in os.listdir(os.path.join(dest, "mesh")):
+                with open(os.path.join(dest, "mesh", name), "rb") as f:
+                    raw = f.read()
+                if name.endswith(".gz"):
+                    import gzip
+                    raw = gzip.decompress(raw)
+                    name = name[:-3]
+                found2[name] = raw
+            if found2 != found:
+                v.append({"kind": "link-files-lost-or-changed-by-a-second-run",
+                          "detail": f"{ctx}: second run ended with {rc2!r}; files now "
+                          f"{sorted(found2)}, were {sorted(found)}"})
     finally:
         shutil.rmtree(top, ignore_errors=True)
     return {"violations": v[:3], "obs": obs, "sigs": [f"links|{case['seed']}"],
